@@ -159,7 +159,12 @@ class DataEnv:
         if m == 'get':
             k = st.deref_all(args[1]).concrete()
             log_call(st, self.tag, (m, k))
-            return ret(st, Some(st.ref(Opaque((self.tag + 'VAL', k)))) if k in self.keys else NONE)
+            if k not in self.keys: return ret(st, NONE)
+            # a bound name may be bound to nil: that is still a binding (solver-chosen per key)
+            def g():
+                for s2, isnil in ctx.ex.fork_bool(st, z3.Bool(f'{self.tag}_{k}_is_nil')):
+                    yield s2, 'ret', Some(s2.ref(VALUE_NIL if isnil else Opaque((self.tag + 'VAL', k))))
+            return g()
         if m == 'as_value':
             return ret(st, args[0])
         if m == 'keys':
